@@ -339,6 +339,6 @@ PROPERTY = {
     ],
     "subchecks": [
         SubCheck("interleavings", check_subtree, enumerate=enum_interleavings, shards_quick=16, shards_thorough=16, exhaustive=True, describe=_desc),
-        SubCheck("protocol_walks", check_walk, strategy=strat_walk, nontrivial=lambda L: "nontrivial" in L, quick=300, thorough=5000, shards_quick=16, describe=_desc),
+        SubCheck("protocol_walks", check_walk, strategy=strat_walk, nontrivial=lambda L: "nontrivial" in L, quick=300, thorough=20000, shards_quick=16, describe=_desc),
     ],
 }
